@@ -155,7 +155,7 @@ func getSKeyFunc(keys [][]byte, liar bool) func([20]byte) []byte {
 			return keys[0]
 		}
 		for _, k := range keys {
-			if mse.HashSKey(k) == h {
+			if arr20(refHashSKey(k)) == h {
 				return k
 			}
 		}
